@@ -911,6 +911,11 @@ class APIConnection:
 
     def process_packet(self, msg_type_proto: _int, data: _bytes) -> None:
         """Process an incoming packet."""
+        if self.connection_state is CONNECTION_STATE_CLOSED:
+            # The frame helper may still hold frames that arrived in the
+            # same chunk as the one that closed the connection, they must
+            # not be delivered anymore
+            return
         debug_enabled = self._debug_enabled
         try:
             # MESSAGE_NUMBER_TO_PROTO is 0-indexed
